@@ -105,7 +105,8 @@ def run(scn):
         bench = Bench(wrap_top(top), max_cycles=len(ops) * 60 + 400, tail=8, fingerprint=False)
         ma = bench.add(AXILMaster(mb, ops, name="m", max_out=scn["max_out"], bready=scn["bready"], rready=scn["rready"], hazard=True))
         sc = scn["slave"]
-        sa = bench.add(AXISlave(sb, name="s", awready=sc["aw"], wready=sc["w"], arready=sc["ar"], lat=sc["lat"], depth=sc["depth"], init=hb))
+        sa = bench.add(AXISlave(sb, name="s", awready=sc["aw"], wready=sc["w"], arready=sc["ar"], lat=sc["lat"], depth=sc["depth"], init=hb,
+                                err_range=(0x400, 1 << 32) if p.get("err") else None))
         store_byte = sa.rbyte
     elif fam == "wb2axi":
         wbm = wishbone.Interface(data_width=32, adr_width=30)
@@ -114,7 +115,8 @@ def run(scn):
         bench = Bench(wrap_top(top), max_cycles=len(ops) * 60 + 400, tail=8, fingerprint=False)
         ma = bench.add(WBMaster(wbm, ops, name="m"))
         sc = scn["slave"]
-        sa = bench.add(AXISlave(sb, name="s", awready=sc["aw"], wready=sc["w"], arready=sc["ar"], lat=sc["lat"], depth=sc["depth"], init=hb))
+        sa = bench.add(AXISlave(sb, name="s", awready=sc["aw"], wready=sc["w"], arready=sc["ar"], lat=sc["lat"], depth=sc["depth"], init=hb,
+                                err_range=(0x400, 1 << 32) if p.get("err") else None))
         store_byte = sa.rbyte
     else:   # ahb2wb
         dw = p.get("dw", 32)
@@ -212,16 +214,24 @@ def run(scn):
             if o["kind"] == "w":
                 if wi < len(ma.log["b"]):
                     checks += 1
-                    if ma.log["b"][wi][1] != 0:
-                        V("write_response", "master.b", "write #%d answered resp=%d" % (wi, ma.log["b"][wi][1]))
+                    e_ = bool(p.get("err")) and o["addr"] >= 0x400
+                    if ma.log["b"][wi][1] != (2 if e_ else 0):
+                        V("write_response", "master.b", "write #%d addr %#x answered resp=%d, the AXI slave answered %s" % (wi, o["addr"], ma.log["b"][wi][1], "SLVERR" if e_ else "OKAY"))
                         break
                     for i in range(4):
-                        if (o["strb"] >> i) & 1:
+                        if (o["strb"] >> i) & 1 and not e_:
                             ref[o["addr"] + i] = (o["data"] >> (8 * i)) & 0xff
                 wi += 1
             else:
                 if ri < len(ma.log["r"]):
                     _, data, resp = ma.log["r"][ri]
+                    if p.get("err") and o["addr"] >= 0x400:
+                        checks += 1
+                        if resp != 2:
+                            V("read_response", "master.r", "read #%d addr %#x answered resp=%d, the AXI slave answered SLVERR" % (ri, o["addr"], resp))
+                            break
+                        ri += 1
+                        continue
                     for i in range(4):
                         exp = ref.get(o["addr"] + i, hb(o["addr"] + i))
                         checks += 1
@@ -243,9 +253,12 @@ def run(scn):
         for r in ma.results:
             o = ops[r["op"]]
             checks += 1
-            if r["err"]:
-                V("wb_error_propagation", "master", "op #%d terminated with err" % r["op"])
+            e_ = bool(p.get("err")) and o["adr"] * 4 >= 0x400
+            if bool(r["err"]) != e_:
+                V("wb_error_propagation", "master", "op #%d %r terminated with err=%d, the AXI slave answered %s" % (r["op"], o, r["err"], "SLVERR" if e_ else "OKAY"))
                 break
+            if e_:
+                continue
             for i in range(4):
                 if not (o["sel"] >> i) & 1:
                     continue
